@@ -2,11 +2,12 @@
 import copy
 
 from .. import gen, report, wire, refmodels
+from . import multi
 from .common import viol, h, compact_case, CATS
 
 ID = 'C03'
 CLAIM = ('for every database name (and gss-* instantiations, and unknown names) the same algorithm is audited alone, at a seeded position among seeded neighbours, in server and in '
-         'client role, as text and as JSON, and looked up with --lookup; the (level, note) multiset must be identical in all views and equal to the database entry read as data. '
+         'client role, as text and as JSON, as the second target of a two-target invocation whose first target earns every context note, and looked up with --lookup; the (level, note) multiset must be identical in all views and equal to the database entry read as data. '
          'Workload only: no schedule or fault of its own; views/roles are end-to-end paths through the simulated network')
 TRUST = ('trusted base: MASTER_DB of the tree under test is the specification (read as data); an independent rendering of the "available since" text; peers without key material and '
          'with a refusing GEX policy so that no measured attribute (size) is involved; the strict-kex marker is always advertised so that no Terrapin warning is involved')
@@ -108,6 +109,16 @@ def run_case(case, ctx):
     tgt = 'kex' if cat == 'kex' else cat
     pdup[tgt] = pdup[tgt][:1] + [name] + pdup[tgt][1:] if name not in pdup[tgt][:1] else pdup[tgt] + [name]
     plans['json_dup'] = gen.server_plan(case['pseed'], ['-j', '--skip-rate-test', '-t', '2', 'srv.example:2222'], pdup, port=2222)
+    # audited second by the one worker thread of a two-target invocation, after a target that earns every kind of context note
+    # (no strict-kex marker, ChaCha20 / CBC / ETM, 1024-bit RSA key, 1024-bit group exchange) and lists the same name
+    noisy = {'banner': 'SSH-2.0-Sim_1.0', 'kex': ['diffie-hellman-group-exchange-sha256', 'curve25519-sha256'], 'key': ['ssh-rsa', 'rsa-sha2-256', 'ssh-ed25519'],
+             'enc': ['chacha20-poly1305@openssh.com', 'aes128-cbc', 'aes128-ctr'], 'mac': ['hmac-sha2-256-etm@openssh.com', 'hmac-sha1'], 'comp': ['none'],
+             'keys': {'ssh-rsa': {'bits': 1024}, 'ssh-ed25519': {}}, 'gex': {'sizes': [1024], 'style': 'strict'}}
+    if name not in noisy[cat]:
+        noisy[cat] = noisy[cat] + [name]
+    two = [{'kind': 'server', 'host': 'noisy.example', 'ip': '192.0.2.9', 'port': 2222, 'profile': noisy},
+           {'kind': 'server', 'host': 'srv.example', 'ip': '192.0.2.10', 'port': 2222, 'profile': profile(case, False, 'server')}]
+    plans['after_other_target'] = multi.multi_plan({'targets': two, 'pseed': case['pseed'], 'sched': {'policy': 'run_to_block', 'seed': 0}}, list(case['opts']), 1, ctx.scratch())
     lookup_name = dbname if dbname is not None else name
     plans['lookup'] = {'seed': case['pseed'], 'argv': ['-n', '--lookup', lookup_name], 'world': {}}
     for vname, plan in plans.items():
@@ -142,7 +153,14 @@ def run_case(case, ctx):
             if rec['status'] not in (0, 2, 3):
                 out.append(viol('C03 audit failed in the %s view (status %s)' % (vname, rec['status']), rec['stdout'][-500:]))
                 continue
-            notes, tr = notes_text(rec['stdout'], cat, name, verbose)
+            text = rec['stdout']
+            if vname == 'after_other_target':
+                mine = [b for b in multi.split_text_blocks(text) if multi.block_target(b, two) == 1]
+                if len(mine) != 1:
+                    out.append(viol('C03 no report block for the second target', text[-500:]))
+                    continue
+                text = mine[0]
+            notes, tr = notes_text(text, cat, name, verbose)
             if vname == 'twice':
                 other = {'kex': 'key', 'key': 'enc', 'enc': 'mac', 'mac': 'enc'}[cat]
                 occ = [e for e in tr.algs[cat] if e['name'] == name] + [e for e in tr.algs[other] if e['name'] == name]
